@@ -113,27 +113,67 @@ Proof.
            gen_P1_closed gen_P1_env gen_no_shared_module).
 Qed.
 
-(* ---------------------------------------------------------------- the defect in resolveModule (nested names) *)
+(* ---------------------------------------------------------------- nested names of any depth *)
 
-(* A host-defined module tree vx{inner{deep{leaf2}}, deep{leaf2}} (4 modules, 2 builtins). *)
+(* For every well-formed world (host-defined module trees of any shape), every global module x, every chain of
+   nested modules p1...pk reached from it (k >= 0, ANY depth) and every stored attribute a of the module t at the
+   end of the chain: WithoutGlobal("x.p1...pk.a") removes exactly the attribute a of t - nothing else in the heap
+   or the globals changes - and the denied name no longer resolves. *)
+Theorem C11_nested_deny_exact : forall w x m p t e,
+  wf_world w = true -> In (x, m) (w_env w) -> is_module (w_mods w) m = true ->
+  Forall nodot p -> mod_path (w_heap w) (w_mods w) m p t ->
+  In e (w_heap w) -> e_src e = t -> e_mem e = true ->
+  apply_config w (deny1 (dotted (x :: p ++ [e_lbl e]))) =
+    W (w_env w) (filter (fun e' => negb (member_at t (e_lbl e) e')) (w_heap w)) (w_mods w) /\
+  lookup_name (apply_config w (deny1 (dotted (x :: p ++ [e_lbl e])))) (dotted (x :: p ++ [e_lbl e])) = None.
+Proof. exact nested_deny_exact. Qed.
+
+(* ... and WithGlobalOverride("x.p1...pk.a", v) redirects exactly that attribute to v. *)
+Theorem C11_nested_override_exact : forall w x m p t e,
+  wf_world w = true -> In (x, m) (w_env w) -> is_module (w_mods w) m = true ->
+  Forall nodot p -> mod_path (w_heap w) (w_mods w) m p t ->
+  In e (w_heap w) -> e_src e = t -> e_mem e = true -> forall v,
+  apply_config w (override1 (dotted (x :: p ++ [e_lbl e])) v) =
+    W (w_env w) (map (fun e' => if member_at t (e_lbl e) e' then E (e_src e') (e_lbl e') true v else e') (w_heap w))
+      (w_mods w) /\
+  get_attr (w_heap (apply_config w (override1 (dotted (x :: p ++ [e_lbl e])) v))) t (e_lbl e) = Some v.
+Proof. exact nested_override_exact. Qed.
+
+(* A host-defined module tree vx{inner{deep{leaf2, deeper{leaf3}}}, deep{leaf2}} (5 modules, 3 builtins). *)
 Definition nested_world : world :=
   W [("vx", 1%positive)]
-    [ E 1 "inner" true 2; E 1 "deep" true 3; E 2 "deep" true 4; E 3 "leaf2" true 5; E 4 "leaf2" true 6 ]%positive
-    [1; 2; 3; 4]%positive.
+    [ E 1 "inner" true 2; E 1 "deep" true 3; E 2 "deep" true 4; E 3 "leaf2" true 5; E 4 "leaf2" true 6;
+      E 4 "deeper" true 7; E 7 "leaf3" true 8 ]%positive
+    [1; 2; 3; 4; 7]%positive.
 
-(* The full statement (a denied dotted name of ANY depth becomes unreachable) is false of the code as it is:
-   resolveModule looks every path element up in the root module, so WithoutGlobal("vx.inner.deep.leaf2")
-   removes vx.deep.leaf2 instead and leaves the denied object accessible. Replayed on the real code by the check. *)
-Theorem C11_refuted_nested_deny : exists w nm o,
-  wf_world w = true /\ lookup_name w nm = Some o /\
-  lookup_name (apply_config w (deny1 nm)) nm = Some o /\ Access (apply_config w (deny1 nm)) o.
+(* the hypotheses of the two theorems are met by the 4- and 5-component names of that tree *)
+Example C11_nested_hyp_satisfiable :
+  wf_world nested_world = true /\
+  mod_path (w_heap nested_world) (w_mods nested_world) 1 ["inner"; "deep"] 4 /\
+  mod_path (w_heap nested_world) (w_mods nested_world) 1 ["inner"; "deep"; "deeper"] 7 /\
+  dotted ("vx" :: ["inner"; "deep"] ++ ["leaf2"]) = "vx.inner.deep.leaf2".
 Proof.
-  exists nested_world, "vx.inner.deep.leaf2", 6%positive.
-  split; [vm_compute; reflexivity|]. split; [vm_compute; reflexivity|].
-  assert (H : lookup_name (apply_config nested_world (deny1 "vx.inner.deep.leaf2")) "vx.inner.deep.leaf2" = Some 6%positive)
-    by (vm_compute; reflexivity).
-  split; [exact H|]. eapply lookup_access. exact H.
+  split; [vm_compute; reflexivity|]. split; [|split; [|reflexivity]].
+  - eapply mp_cons; [vm_compute; reflexivity|reflexivity|]. eapply mp_cons; [vm_compute; reflexivity|reflexivity|]. apply mp_nil.
+  - eapply mp_cons; [vm_compute; reflexivity|reflexivity|]. eapply mp_cons; [vm_compute; reflexivity|reflexivity|].
+    eapply mp_cons; [vm_compute; reflexivity|reflexivity|]. apply mp_nil.
 Qed.
+Example C11_nested_deny_runs :
+  lookup_name (apply_config nested_world (deny1 "vx.inner.deep.leaf2")) "vx.inner.deep.leaf2" = None /\
+  lookup_name (apply_config nested_world (deny1 "vx.inner.deep.leaf2")) "vx.deep.leaf2" = Some 5%positive /\
+  lookup_name (apply_config nested_world (deny1 "vx.inner.deep.deeper.leaf3")) "vx.inner.deep.deeper.leaf3" = None /\
+  lookup_name (apply_config nested_world (override1 "vx.inner.deep.deeper.leaf3" 99)) "vx.inner.deep.deeper.leaf3" = Some 99%positive.
+Proof. repeat split; vm_compute; reflexivity. Qed.
+
+(* Regression (defect C11#1, repaired in /repo by e1edc7f): the rule before the repair looked every path element up
+   in the ROOT module, so for vx.inner.deep.leaf2 it resolved the module vx.deep (node 3) instead of vx.inner.deep
+   (node 4); removing leaf2 there left the denied object (node 6) reachable under its name. *)
+Example C11_old_rule_failed :
+  resolve_module_old (w_heap nested_world) (w_mods nested_world) 1 ["inner"; "deep"] = Some 3%positive /\
+  resolve_module (w_heap nested_world) (w_mods nested_world) 1 ["inner"; "deep"] = Some 4%positive /\
+  lookup_name (W (w_env nested_world) (override_attr (w_heap nested_world) 3 "leaf2" None) (w_mods nested_world))
+              "vx.inner.deep.leaf2" = Some 6%positive.
+Proof. repeat split; vm_compute; reflexivity. Qed.
 
 (* ---------------------------------------------------------------- non-vacuity *)
 
